@@ -4,11 +4,20 @@
 import os, re, shutil, subprocess, sys, tempfile
 from concurrent.futures import ThreadPoolExecutor
 VERIF = os.path.dirname(os.path.dirname(os.path.abspath(__file__)))
+def _wt_add(wt):
+    import time
+    for k in range(5):
+        if subprocess.call(["git", "-C", "/repo", "worktree", "add", "-q", "--detach", wt, "HEAD"], stdout=subprocess.DEVNULL, stderr=subprocess.DEVNULL) == 0:
+            return
+        time.sleep(1 + k)
+    raise RuntimeError("git worktree add failed for " + wt)
+
+
 def run(patch):
     tdir = tempfile.mkdtemp(prefix="pgsa-neutral-")
     wt = os.path.join(tdir, "repo")
     try:
-        subprocess.check_call(["git", "-C", "/repo", "worktree", "add", "-q", "--detach", wt, "HEAD"], stdout=subprocess.DEVNULL, stderr=subprocess.DEVNULL)
+        _wt_add(wt)
         r = subprocess.run(["git", "-C", wt, "apply", os.path.abspath(patch)], stdout=subprocess.PIPE, stderr=subprocess.STDOUT, text=True)
         if r.returncode != 0:
             return patch, "N/A", "does not apply: " + r.stdout[-150:]
